@@ -32,6 +32,11 @@ claimed["C07"] = dict(
    note="Trusted: govc and the SMT solvers; the meta-argument that a loop whose iterations pairwise commute (or whose only effect is a multiset sorted by a total order) is independent of iteration order; sort.Slice/sort.Sort/sort.Strings deterministic; distinct package-level named types have distinct qualified names; setImplements' table invariant accu[N].name == N; packages.Load / go list and the external formatters deterministic. Cross-process determinism follows from the same argument (no source reads process state) and is not separately exercised. 8 of 18 sources are argued, not proved (listed in the evidence).",
    ref="DESIGN §4 C07")
 
+claimed["C18"] = dict(
+   text="Zero-annotation safety sweep by the same VC generator over every function of analysis, analysis/sql, generator, gounions, randdata, sqlcrud, typescript, dart and generator/sql (all their functions): one obligation per index and slice bound, single-value type assertion, store into a possibly nil map, pointer dereference, method call on a possibly nil dependency object, division and make length; explicit panic(...) is a diagnostic exit. about two thirds of the ~680 sites are proved for all inputs on the unchanged tree (exact counts in the evidence); the others are listed by stable key in contracts/safety_baseline.json and are NOT claimed. The check fails when any site outside that list is unproved: a new unsafe site, or a proved site whose guard was weakened. A bounded harness (60 well-typed scratch packages in unusual spellings and with unsupported forms, through analysis and six generators, distinguishing runtime.Error from diagnostics) runs in every tier and supplies replays. Nine genuine crashes found this way were repaired in /repo (known_findings.json).",
+   note="Trusted: govc and the SMT solvers; pointer receivers and pointer parameters assumed non-nil on entry; calls without contract return arbitrary values (sound over-approximation); go/types, go/ast, strings, regexp functions are opaque. Not decided: the unproved sites (mostly 'value read from the type graph is non-nil', i.e. the well-formedness of the analysis result, which this sweep does not establish), and the 'unbounded recursion' clause (termination of createType/handleType on cyclic declarations). analysis/httpapi is not swept.",
+   ref="DESIGN §4 C18")
+
 not_applicable = {
  "C01": "type-checking of emitted Go text for all inputs needs a typing judgement over Sprintf templates; no contract on a Go function returning a string can express it (DESIGN §5)",
  "C02": "round trip and wire bytes are run-time behaviour of the emitted wrappers under encoding/json; a contract on the generator can only restate its templates (DESIGN §5)",
